@@ -249,6 +249,11 @@ func runSolver(s solverSpec, query string, timeoutMs int) (status string, out st
 	return "error", out, dur
 }
 
+// skipNames: obligations not attempted at all (quick tier: the ones listed as
+// undecided, which are excluded from the verdict anyway and would only burn the
+// full solver timeout three times over).
+var skipNames map[string]string
+
 func solveAll(rs []*FuncResult, timeoutMs int, thorough bool, workers int) []*SolveResult {
 	type job struct {
 		r *FuncResult
@@ -268,6 +273,10 @@ func solveAll(rs []*FuncResult, timeoutMs int, thorough bool, workers int) []*So
 		go func() {
 			defer wg.Done()
 			for i := range ch {
+				if _, skip := skipNames[jobs[i].o.Name]; skip && !thorough {
+					out[i] = &SolveResult{Oblig: jobs[i].o, Status: "not-attempted", Solver: "none"}
+					continue
+				}
 				out[i] = solveOblig(jobs[i].r, jobs[i].o, timeoutMs, thorough)
 			}
 		}()
